@@ -89,7 +89,7 @@ def main(argv=None):
         rc = 0
         for sig, v in H.violations.items():
             if sig in known_open:
-                print('KNOWN-FINDING: property=%s %s %s' % (pid, sig, known_open[sig].get('what', '')))
+                print('KNOWN-FINDING: property=%s %s %s' % (pid, sig, known_open[sig].get('what', '')[:160]))
             else:
                 print('VIOLATION property=%s replay=%s' % (pid, a.replay))
                 print('  signature:', sig)
@@ -149,7 +149,7 @@ def main(argv=None):
         v = M.violations[sig]
         if sig in known_open:
             e = known_open[sig]
-            lines.append('KNOWN-FINDING: property=%s %s (%d cases) %s' % (pid, sig, v['count'], e.get('what', '')))
+            lines.append('KNOWN-FINDING: property=%s %s (%d cases) %s' % (pid, sig, v['count'], e.get('what', '')[:160]))
             M.excluded_known += v['count']
             continue
         new_viol += 1
